@@ -876,10 +876,32 @@ pub fn build_pool(shipped_text: String, shipped_table: Vec<Entry>, n_rendered: u
                 if (i / 16) % 2 == 1 {
                     spots.push(*r.pick(&hashes) + 1);
                 }
+                // ...and one as the LAST byte of a data line's comment where the next line is a data
+                // line too, a byte that looks like the lead of a multi-byte sequence (Latin-1 'é',
+                // 'Ã', 'ð'): a lossy decoder that skips "the rest of the sequence" swallows the line
+                // feed and the next row with it (seeded change M223)
+                let eol: Vec<usize> = (1..b.len().saturating_sub(1))
+                    .filter(|&k| {
+                        b[k] == b'\n' && b[k + 1].is_ascii_digit() && {
+                            let ls = b[..k].iter().rposition(|&c| c == b'\n').map(|p| p + 1).unwrap_or(0);
+                            b[ls].is_ascii_digit() && b[ls..k].contains(&b'#')
+                        }
+                    })
+                    .map(|k| if b[k - 1] == b'\r' { k - 1 } else { k })
+                    .collect();
+                let eol_spot = if eol.is_empty() { None } else { Some(eol[(i / 16) % eol.len()]) };
+                if let Some(at) = eol_spot {
+                    spots.retain(|&s| s != at);
+                }
                 spots.sort_unstable();
                 spots.dedup();
-                for &at in spots.iter().rev() {
-                    b.insert(at, *r.pick(&[0xE9u8, 0xFF, 0xC3, 0xA0]));
+                let mut all: Vec<(usize, u8)> = spots.iter().map(|&at| (at, *r.pick(&[0xE9u8, 0xFF, 0xC3, 0xA0]))).collect();
+                if let Some(at) = eol_spot {
+                    all.push((at, [0xE9u8, 0xC3, 0xF0, 0xC3][(i / 16) % 4]));
+                }
+                all.sort_unstable();
+                for &(at, byte) in all.iter().rev() {
+                    b.insert(at, byte);
                 }
                 // positions shifted by earlier insertions still follow a '#' or a comment byte
                 if std::str::from_utf8(&b).is_err() {
